@@ -174,6 +174,13 @@ def explore(ctx):
         kw = {"useProductionNames": False, "cffVersion": rng.choice([1, 2]), "optimizeCFF": rng.choice([0, 1, 2])}
         if tol_opt is not None:
             kw["roundTolerance"] = tol_opt
+        if i % 3 == 1:
+            # outline-preserving filters requested through the UFO lib run before the decomposition and must not change
+            # what is drawn (flattening composes the nested matrices itself)
+            fl = [[{"name": "flattenComponents", "pre": True}], [{"name": "decomposeTransformedComponents", "pre": True}],
+                  [{"name": "flattenComponents", "pre": True}, {"name": "propagateAnchors", "pre": True}]][(i // 3) % 3]
+            desc["lib"] = {"com.github.googlei18n.ufo2ft.filters": fl}
+            ctx.klass("sem:lib filters " + "+".join(f["name"] for f in fl))
         case = {"font": jsonable(desc), "lib": lib, "options": kw, "level": "compileOTF"}
         try:
             tt = ufo2ft.compileOTF(build_font(desc, lib), **kw)
